@@ -48,7 +48,7 @@ def run_goal(arg):
         if goal['engine'] in ('e2', 'e2rel'):
             from . import cast, spec as SP, e2
             db = SP.load_all()
-            units = [cast.Unit(s) for s in cast.SOURCES if s != 'Natural_Units.cpp']
+            units = cast.all_units()
             V = e2.Verifier(units, db, budget=budget)
             k = goal['key']
             if k.startswith('lemma:'): out['info'] = V.verify_lemma(k[6:])
